@@ -22,6 +22,7 @@ func (r readWrapper) Read(p []byte) (n int, err error) {
 type bufWriter struct {
 	buf []byte
 	w   io.Writer
+	n   int64 // bytes stored by writes that succeeded
 }
 
 func (w *bufWriter) Write(p []byte) (n int, err error) {
@@ -32,7 +33,12 @@ func (w *bufWriter) Write(p []byte) (n int, err error) {
 	w.buf = w.buf[:len(p)]
 	copy(w.buf, p)
 
-	return w.w.Write(w.buf)
+	n, err = w.w.Write(w.buf)
+	if err == nil {
+		w.n += int64(n)
+	}
+
+	return n, err
 }
 
 func (r *Repo) Store(_ context.Context, path string, content io.Reader) (err error) {
@@ -59,6 +65,13 @@ func (r *Repo) Store(_ context.Context, path string, content io.Reader) (err err
 
 	_, err = io.Copy(&w, content)
 	if errors.Is(err, os.ErrNotEnoughSpace) {
+		// the failed write may have stored a part of its chunk; the whole chunk is
+		// replayed from the buffer, so the file must end where the last good write ended
+		truncErr := f.Truncate(w.n)
+		if truncErr != nil {
+			return fmt.Errorf("truncate: %w", truncErr)
+		}
+
 		_, seekErr := f.Seek(0, io.SeekStart)
 		if seekErr != nil {
 			return fmt.Errorf("seek: %w", seekErr)
